@@ -17,13 +17,15 @@ Inductive exn : Type :=
 | IndexError         (* [][0] *)
 | AttributeError     (* int.split *)
 | ValidationError    (* pydantic.ValidationError *)
-| OracleMissing.     (* harness table lacks an entry: fail closed, never a Python outcome *)
+| OracleMissing      (* harness table lacks an entry: fail closed, never a Python outcome *)
+| OtherExn.          (* any other exception class observed on the implementation *)
 
 Definition exn_code (e : exn) : Z :=
   match e with
   | LookupError => 1 | ValueError => 2 | UnicodeDecodeError => 3 | NoOptionError => 4
   | TypeError => 5 | IndexError => 6 | AttributeError => 7 | ValidationError => 8
   | OracleMissing => 99
+  | OtherExn => 100
   end.
 Definition exn_eqb (a b : exn) : bool := exn_code a =? exn_code b.
 
@@ -52,3 +54,14 @@ Fixpoint zmem (x : Z) (l : list Z) : bool :=
   match l with [] => false | y :: t => (x =? y) || zmem x t end.
 
 Definition is_nil {A} (l : list A) : bool := match l with [] => true | _ => false end.
+
+(* equality of observed results (used by the generated correspondence files) *)
+Definition res_eqb {A} (eqb : A -> A -> bool) (a b : res exn A) : bool :=
+  match a, b with
+  | Ok x, Ok y => eqb x y
+  | Raise e, Raise f => exn_eqb e f
+  | Diverge, Diverge => true
+  | _, _ => false
+  end.
+Definition ostr_list_eqb : list (option str) -> list (option str) -> bool :=
+  list_eqb (opt_eqb str_eqb).
